@@ -45,6 +45,7 @@ func runC15(c *Ctx) {
 	httpUpgraderRules(c, "C15")
 	httpGetHeaderRules(c, "C15")
 	serverUpgraderRules(c, "C15")
+	dialerUpgradeRules(c, "C15") // the response is peer input as well (nil reader in the clean-up, header loop)
 	// other folds of functions with reviewed sites
 	c02Cipher(c)
 	c12Cbuf(c)
